@@ -9,13 +9,13 @@
  "thorough_defines": ["C19_SMAX=16", "C19_CREQMAX=16", "VERIF_STRMAX=200", "AWS_MMAX=200", "AWS_OUTMAX=200"],
  "models": ["models/libc_string.c", "models/aws_hash.c", "models/aws_fmt.c", "models/aws_time.c"],
  "instrument_flags": ["--nondet-static-exclude", "hexchars"],
- "cbmc": ["--malloc-may-fail", "--malloc-fail-null"],
  "loop_contracts": false,
  "bounded": true,
  "bound": "secret, region, service, canonical request: every string of <= 8 characters (thorough: 16), date <= 8, datetime <= 16 characters, all byte values; formatted strings compared in normal form (models/aws_stream.h), not as rendered bytes; every loop has a compile-time-constant bound and is fully unwound (unwinding assertions on)",
  "timeout": 600,
  "assumptions": ["SHA256_Buf/HMAC_SHA256_Buf are abstract logging leaves (models/aws_hash.c, G2): their conformance is C01's",
                  "asprintf is modelled (models/aws_fmt.c): records what is to be printed for %s %d %% in normal form, result bytes abstract; util/asprintf.c itself is not part of the proof (DFCC cannot instrument variadic functions); util/hexify.c is the real code",
+                 "SUCCESS PATH ONLY: asprintf, malloc and time do not fail in this group (a symbolic execution that merges the error paths back makes the ghost trace symbolic and the comparison intractable); the failure paths are group C19/fail_paths",
                  "the comparison with spec/sigv4_spec.h is a set of harness-level obligations after the call (lockstep, harness/C19/c19.h)"]
 }
 */
@@ -68,5 +68,4 @@ h_sign_chain(void)
 	VCOVER(rc == 0 && strlen(secret) == 0 && strlen(region) == C19_SMAX && strlen(service) == 1 && strlen(date) == 8);
 	VCOVER(rc == 0 && strlen(creq) == C19_CREQMAX && strlen(datetime) == 16);
 	VCOVER(rc == 0 && strlen(creq) == 0 && strlen(date) == 0 && strlen(datetime) == 0);
-	VCOVER(rc == -1);
 }
